@@ -12,7 +12,7 @@ structure Genesis where
   votes : List (String × List VoteData)
   prevotes : List (String × Str)
   miss : List (String × Nat)
-  feeders : List (String × String)
+  feeders : List (String × Acct)
 
 /-- `ExportGenesis` of both modules -/
 def exportG (s : State) : Genesis :=
